@@ -84,6 +84,11 @@ func Snap() Snapshot {
 		}
 		reason := h[lb+1 : rb]
 		blocked := false
+		if bytes.HasPrefix(reason, []byte("GC assist")) {
+			// a mutator helping the collector: it continues on its own
+			s.Busy++
+			continue
+		}
 		for _, p := range blockedPrefixes {
 			if bytes.HasPrefix(reason, p) {
 				blocked = true
